@@ -221,6 +221,7 @@ class World:
             return None
 
     def _result(self, si, obj, origin, depth=0, view_of=None):
+        si.info["result_type"] = type(obj).__name__ if obj is not None else None
         if obj is None:
             return None
         e = self.add(obj, origin, view_of=view_of, depth=depth)
